@@ -80,6 +80,32 @@ def strategy(tier):
     return strategy_impl(tier)
 
 
+def table_cases():
+    """The finite table behind the property, in full: 8 shifts x 3 rules x 7 sources of rule / fill value x {plain, weighted,
+    cumint} on one small fixed array (random search reaches a given cell of this product only now and then)."""
+    vals = [[3.0, -1.0, 4.0, -1.0, 5.0], [-2.0, 7.0, 1.0, -8.0, 2.0]]
+    out = []
+    for frm, to in M.VALID_SHIFTS:
+        n = 5 - M.LEN_DELTA[frm]
+        positions = ["center"] + [p for p in gen.OTHER_POS if p in (frm, to)]
+        axis = {"name": "X", "n": n, "positions": positions, "default_shifts": None}
+        metrics = {gen.dim_name("X", p): [1.0 + 0.5 * i for i in range(gen.pos_len(n, p))] for p in positions}
+        for rule in M.RULES:
+            for label, grid, cb, cf in gen.rule_sources(rule):
+                for mode in ("plain", "weighted", "cumint"):
+                    out.append({"axes": [axis], "grid": grid, "op_axes": ["X"], "axis_spelling": "str", "data_pos": {"X": frm},
+                                "dims": ["e0", gen.dim_name("X", frm)], "values": vals, "to": {"X": to}, "to_extra": {}, "to_spelling": "scalar",
+                                "call_boundary": cb, "call_fill": cf, "metrics": metrics, "mode": mode, "dtype": "float64"})
+    return out
+
+
+def exhaustive_part(tier, seed):
+    from vfw.runner import enumerate_cases
+
+    cases = table_cases()
+    return {"result": enumerate_cases(PROPERTY, cases), "extra": {"enumerated_table_cells": len(cases)}}
+
+
 def spell_axis(op_axes, spelling):
     if spelling == "str":
         return op_axes[0]
